@@ -19,6 +19,7 @@ EXPLANATION = (
     "and -tokens / rate (> 0, with rate > 0 asserted at construction and never reassigned) when tokens < 0, hence never "
     "negative whatever the clock does; consume() contains no suspension point, so its read-modify-write is atomic under "
     "asyncio. The rate bound itself is arithmetic over arrival sequences and is not claimed. This is one of the thinnest claims."
+    " C20.1 also: the limiter's truth value is its identity (no __bool__/__len__), since both clients test `if self._tb and ...`."
 )
 TRUSTED = ["CPython ast parser", "sa.cfg statement CFG", "sa.cells", "mypy callee resolution"]
 
